@@ -534,22 +534,32 @@ func TestC23(t *testing.T) {
 			)
 		}
 		var scs []e1lib.Scenario
-		deep := map[string]bool{"GetBlock(b)|S,b,D": true, "GetBlock(b)|S,X": true, "GetBlockRange(b)|S,b,s,D": true, "GetBlockRange(b)|S,X": true}
 		for i, p := range ps {
 			s := scenario(p)
-			// quick: the 12 design scenarios (6 batch shapes x 2 APIs) with <=2 deviations, the rest <=1
+			// quick: the 12 design scenarios (6 batch shapes x 2 APIs) with <=2 deviations, the rest <=1.
+			// Budgets are ceilings for a heavily loaded machine: an unloaded run needs ~1 s per
+			// scenario for bound 1 and 10-30 s for bound 2.
 			s.MinB, s.MaxB, s.Budget = 1, 1, 60*time.Second
 			if i < 12 {
 				s.MaxB = 2
 			}
 			if thorough {
-				s.MinB, s.MaxB, s.Budget = 2, 2, 7*time.Minute
-				if deep[s.Name] {
-					// as far into bound 3 as the budget allows; bound 2 is what is claimed
-					s.MaxB = 3
-				}
+				s.MinB, s.MaxB, s.Budget = 2, 2, 15*time.Minute
 			}
 			scs = append(scs, s)
+		}
+		if thorough {
+			// four conforming / closing scenarios once more, as far into bound 3 as 4 minutes allow
+			// (nothing is claimed for them beyond what the bound-2 scenarios above claim)
+			for _, p := range []params{
+				{api: "GetBlock", req: 'b', script: "SbD"}, {api: "GetBlock", req: 'b', script: "SX"},
+				{api: "GetBlockRange", req: 'b', script: "SbsD"}, {api: "GetBlockRange", req: 'b', script: "SX"},
+			} {
+				s := scenario(p)
+				s.Name += "|deep"
+				s.MinB, s.MaxB, s.Budget = 0, 3, 4*time.Minute
+				scs = append(scs, s)
+			}
 		}
 		return scs
 	})
